@@ -169,7 +169,9 @@ func ExecuteRace(ctx context.Context, members []Member) (proto.Message, int, err
 // The returned chan will contain the responses in completion order.
 // The chan will be closed once all members have returned a result.
 func executeEach(ctx context.Context, members []Member) <-chan memberResponse {
-	responses := make(chan memberResponse)
+	// buffered so that every member can hand over its response and finish even when the
+	// caller (ExecuteFast, ExecuteRace) stopped receiving after the first usable response
+	responses := make(chan memberResponse, len(members))
 	var all sync.WaitGroup
 	all.Add(len(members))
 
